@@ -7,6 +7,7 @@ CONSTANTS
   Literal = TRUE
   FixDel = TRUE
   CreateNils = FALSE
+  AtomicNewRef = TRUE
 SPECIFICATION Spec
 INVARIANTS MutualExclusion NoUseAfterRelease NoDeadlock NoLockLeft ReturnedHoldNothing Linearizable
 PROPERTIES EveryOpReturns
